@@ -35,6 +35,7 @@ class Executor(ExprMixin, CallMixin, LoopMixin, CompMixin, BuiltinMixin):
         self.loop_ord_cache = {}
         self.epochs = {}                # allocation epochs: base id -> (previous base id, refs used there)
         self.old_refs = set()           # ids of input reference constants (allocated before entry)
+        self.region_havoc = {}          # id(fresh array) -> (previous array, allocation point below which it is equal)
 
     def contract_of(self, qualname):
         a = getattr(self, "active", None)
@@ -163,7 +164,7 @@ class Executor(ExprMixin, CallMixin, LoopMixin, CompMixin, BuiltinMixin):
         return outs
 
     def st_If(self, s, st):
-        c = self.truth(self.eval(s.test, st), st)
+        c = z3.simplify(self.truth(self.eval(s.test, st), st))
         outs = self.flush(st)
         sp = outs[1:]
         if z3.is_true(c):
@@ -396,7 +397,7 @@ class Executor(ExprMixin, CallMixin, LoopMixin, CompMixin, BuiltinMixin):
                     if is_reflike(fty) or (fty.name == "Opt" and is_reflike(fty.args[0])):
                         fv = Val(fty, st.read(f"{ty.args[0]}.{fname}", sort_of(fty), v.t))
                         self.assume_valid(fv, st, depth + 1)
-                if cd.get("record"):
+                if cd.get("record") and not cd.get("partial"):
                     for fname in cd["fields"]:
                         st.assume(st.read(f"{ty.args[0]}.{fname}!has", B, v.t))
                 for inv in cd.get("invariant", []):
